@@ -242,6 +242,80 @@ def rule_defuse(chk, rid_dead, rid_uninit, families, floor=20):
             d2.ok(name, cur[1:])
 
 
+# (constant, unit) pairs that legitimately stand alone among the copies of one named constant
+TABLE_EXCEPT = {
+    ('PSHUFFLE_BYTE_FLIP_MASK', 'lib/avx2_t1/sha512_x4_avx2.asm'): 'second 128-bit lane spelt with indices 0x10..0x1f: vpshufb reads the low four bits only, same permutation',
+    ('PSHUFFLE_BYTE_FLIP_MASK', 'lib/avx512_t1/sha512_x8_avx512.asm'): 'second 128-bit lane spelt with indices 0x10..0x1f: vpshufb reads the low four bits only, same permutation',
+    ('poly_clamp_r', 'lib/avx512_t1/chacha20_avx512.asm'): 'clamp mask followed by an all-ones half so that one 256-bit AND clamps r and keeps s',
+    ('pshufb_shf_table', 'lib/avx512_t2/aes_docsis_enc_vaes_avx512.asm'): "a different table under the same name (index 0 zero-fills, see the unit's comment)",
+}
+
+
+def _pow2ceil(n):
+    p = 1
+    while p < n:
+        p *= 2
+    return p
+
+
+def rule_tables(chk, rid, families=None, floor=300):
+    """sibling rule over the constant tables of the assembled units (rotables): the copies of one named constant kept in three or more
+    units agree — identical after removing replication (xmm/ymm/zmm copies) and alignment padding, or one a proper extension of a
+    copy shared by others.  A copy that stands alone is a deviant: one unit's constant was edited without its siblings."""
+    from .. import rotables
+    r = chk.rule(rid, 'copies of one named constant table kept in three or more assembly units agree (up to replication to the vector '
+                      'width, alignment padding, and extension by further entries)', floor=floor)
+    g = {}
+    for rel, ts in rotables.tables().items():
+        for x in ts:
+            if x['name'].startswith('..@'):
+                continue
+            g.setdefault(x['name'], []).append((rel, x))
+    for name in sorted(g):
+        inst = g[name]
+        if len(inst) < 3:
+            continue
+        classes = {}
+        for rel, x in inst:
+            classes.setdefault(x['digest'], []).append(rel)
+        shared = {d: v for d, v in classes.items() if len(v) >= 2}
+        for rel, x in inst:
+            if families is not None and ('mgr' if '/mb_mgr_' in rel else family_of(rel, '')) not in families:
+                continue
+            key = '%s@%s' % (name, rel)
+            if x['digest'] in shared:
+                r.ok(key, len(shared[x['digest']]))
+                continue
+            if not shared:
+                r.ok(key, 'no two copies agree: unrelated constants under one name')
+                continue
+            why = TABLE_EXCEPT.get((name, rel))
+            if why:
+                r.ok(key, 'stands alone: ' + why)
+                continue
+            c = bytes.fromhex(x['canon'])
+            sup = None
+            for rel2, y in inst:
+                if y['digest'] not in shared:
+                    continue
+                c2 = bytes.fromhex(y['canon'])
+                a, b = (c2, c) if len(c2) <= len(c) else (c, c2)
+                if a and b[:len(a)] == a:
+                    # only a copy of about the same size supports: a table 2^k times as long as a shared one is either a replicated copy
+                    # with one replica altered or the table of a manager with more lanes, which has siblings of its own
+                    if _pow2ceil(len(b)) != _pow2ceil(len(a)):
+                        continue
+                    sup = rel2
+                    break
+            if sup:
+                r.ok(key, 'extends / is extended by the copy in ' + sup)
+            else:
+                others = sorted(shared.items(), key=lambda kv: -len(kv[1]))[0][1]
+                r.bad(key, rel, 'constant table `%s` of %s (%d bytes after removing replication and padding, starts %s) agrees with no other '
+                                'copy of that name; %d units (%s, ...) share a different content' % (
+                                    name, rel, len(c), c[:16].hex(), len(others), others[0]))
+
+
 if __name__ == '__main__':
     import sys as _sys
     if '--write-baseline' in _sys.argv:
